@@ -177,6 +177,11 @@ def run_chunk(args, stop_at=None):
                 agg.sim_seconds += tr.clock_seconds
                 agg.rounds += len(tr.rounds)
                 agg.xsolves += xstats.get('solves', 0)
+                if xstats.get('real_cbc_infeasible_answers'):
+                    agg.extra['real_cbc_infeasible_answers_in_crosscheck'] = \
+                        agg.extra.get(
+                            'real_cbc_infeasible_answers_in_crosscheck', 0) + \
+                        xstats['real_cbc_infeasible_answers']
                 for viol in v['violations']:
                     agg.violations.append((i, j, jsonable(viol), sc, lo))
                 if len(agg.samples) < 3 and (v['nontrivial'] or i == lo):
